@@ -17,6 +17,9 @@ type SaltPool struct {
 	head *saltNode
 	// tail is the newest node.
 	tail *saltNode
+
+	// retention is how long a salt is kept. Zero means [ReplayWindowDuration].
+	retention time.Duration
 }
 
 type saltNode struct {
@@ -87,6 +90,13 @@ func (p *SaltPool) pruneExpired(now time.Time) {
 	}
 }
 
+func (p *SaltPool) retentionOrDefault() time.Duration {
+	if p.retention != 0 {
+		return p.retention
+	}
+	return ReplayWindowDuration
+}
+
 // insert adds the new salt to the pool.
 func (p *SaltPool) insert(now time.Time, salt [32]byte) {
 	if p.nodeBySalt == nil {
@@ -94,7 +104,7 @@ func (p *SaltPool) insert(now time.Time, salt [32]byte) {
 	}
 	node := &saltNode{
 		salt:      salt,
-		expiresAt: now.Add(ReplayWindowDuration),
+		expiresAt: now.Add(p.retentionOrDefault()),
 	}
 	p.nodeBySalt[salt] = node
 	if p.tail != nil {
